@@ -211,7 +211,9 @@ func runC04(c *Ctx) {
 				x.Src = []string{"", "10.0.0.0/8", "10.0.0.0/8, 192.168.1.0/24", "A::/16,a::/16, ,10.1.0.0/16", " 10.2.0.0/16 ,FE80::/10",
 					" 192.0.2.0/24", "10.3.0.0/16 ", "\tFE80::/10", " ",
 					// one network twice, spelled with other blanks or letter case: one entry after migration
-					"10.0.0.0/8, 192.168.0.0/16, 10.0.0.0/8", "fe80::/10,FE80::/10 , fe80::/10", "10.1.0.0/16 ,10.1.0.0/16"}[g.rng.Intn(12)]
+					"10.0.0.0/8, 192.168.0.0/16, 10.0.0.0/8", "fe80::/10,FE80::/10 , fe80::/10", "10.1.0.0/16 ,10.1.0.0/16",
+					// entries that are no networks (a bare address, a word): they migrate as the entries they are
+					"192.0.2.0/24, 192.168.1.1 ,FE80::1", "10.0.0.1", "not-a-network,10.0.0.0/8", "::1, 10.0.0.0/33"}[g.rng.Intn(16)]
 				src, s = x, kr.by["account"]
 			case "activation":
 				x := &v1.ActivationClaims{}
